@@ -92,6 +92,8 @@ def build(case):
         m.__dict__['_id'] = spec['id']
         if 'check' in spec:
             m.check = list(spec['check'])        # the instance's own list (the class-level CHECK is untouched)
+        if 'instance_endogenous' in spec:
+            m.endogenous = list(spec['instance_endogenous'])      # likewise: the object's own list of what an offset copies
         orig = m._evaluate
 
         def logged(t, *a, _m=m, _orig=orig, **kw):
@@ -113,7 +115,7 @@ def ref_linker(case, n):
         selected = list(ids)
     exp = {'exc': None, 'log': [], 'returned': None}
     lin = {'L': np.array([5.0 + i for i in range(n)])}
-    subs = {s['id']: {'A': np.array([1.0 + i for i in range(n)]), 'status': ['-'] * n, 'iterations': [-1] * n}
+    subs = {s['id']: {'A': np.array([1.0 + i for i in range(n)]), 'X': np.arange(float(n)), 'status': ['-'] * n, 'iterations': [-1] * n}
             for s in case['subs']}
     lstat, lit = ['-'] * n, [-1] * n
     exp.update(lin=lin, subs=subs, lstatus=lstat, literations=lit)
@@ -127,10 +129,12 @@ def ref_linker(case, n):
             exp['exc'] = 'IndexError'
             return exp
         lin['L'][T] = lin['L'][T + offset]
-        endo_of = {s['id']: s.get('endogenous', ['A']) for s in case['subs']}
+        endo_of = {s['id']: s.get('instance_endogenous', s.get('endogenous', ['A'])) for s in case['subs']}
         for sid in selected:
-            if 'A' in endo_of[sid]:        # (the copy concerns the endogenous variables)
+            if 'A' in endo_of[sid]:        # (the copy concerns the variables on the object's `endogenous` list)
                 subs[sid]['A'][T] = subs[sid]['A'][T + offset]
+            if 'X' in endo_of[sid]:
+                subs[sid]['X'][T] = subs[sid]['X'][T + offset]
     scripts = {s['id']: s.get('script') or {} for s in case['subs']}
     lscript = case.get('linker_script') or {}
     tol = opts.get('tol', 1e-10)
@@ -143,7 +147,7 @@ def ref_linker(case, n):
         out = [float(lin['L'][T])]
         for sid in ids:
             if sid in selected:
-                out += [float(subs[sid][nm][T]) if nm == 'A' else float(T) for nm in inst_check[sid]]   # X[T] = T never moves
+                out += [float(subs[sid][nm][T]) for nm in inst_check[sid]]
         return out
 
     def apply(values, toks):
@@ -363,6 +367,15 @@ def _gen_lattice(bound):
                         if offset:
                             opts_['offset'] = offset
                         yield {'subs': subs_, 'n': 3, 't': 1, 'opts': opts_}
+        # the instance's `endogenous` list edited after construction (a name added, the list cleared), with an offset
+        for edit in (['A', 'X'], [], ['X']):
+            for which in (0, 1):
+                for offset in (-1, 1):
+                    for max_iter in (1, 2):
+                        subs_ = [{'id': 'a', 'script': {'1:1': [['A', TOKS[3]]]}}, {'id': 'b', 'script': {}}]
+                        subs_[which]['instance_endogenous'] = edit
+                        yield {'subs': subs_, 'n': 3, 't': 1, 'select': None if max_iter == 1 else ['b', 'a'],
+                               'opts': {'min_iter': 0, 'max_iter': max_iter, 'tol': 0.25, 'failures': 'ignore', 'offset': offset}}
         # selections: every subset and order of three submodels, with scripts that would be visible if evaluated
         specs = [{'id': sid, 'lags': i, 'leads': 2 - i, 'script': {'1:1': [['A', ['move', 1.0 + i]]], '1:2': [['A', ['move', 0.5]]]}}
                  for i, sid in enumerate(SUB_IDS)]
@@ -394,6 +407,77 @@ def _gen_lattice(bound):
             for t in (0, 1, 2, -1):
                 yield {'subs': [{'id': 'a'}, {'id': 'b'}], 'select': None if t != 1 else ['b'], 'n': 3, 't': t,
                        'opts': {'max_iter': 2, 'tol': 0.25, 'failures': 'ignore', 'offset': offset}}
+    return gen
+
+
+# -- linker.solve(start, end) is the loop of linker.solve_t over the requested range (possibly empty) -------------------
+
+
+def check_ranges(case):
+    """Two identical linkers: solve(start, end) on one, the loop of solve_t on the other."""
+    opts = dict(case['opts'])
+    res = Result(classes=['linker-solve-range'])
+    Linker = make_linker_class()
+    twins = []
+    for _ in range(2):
+        subs, glog, n = build(case)
+        lk = Linker(subs, L=np.array([5.0 + i for i in range(n)]))
+        lk.__dict__['_glog'] = glog
+        lk.__dict__['_lscript'] = {}
+        twins.append((lk, subs))
+    (A, subsA), (B, subsB) = twins
+    L, K = A.lags, A.leads
+    p0 = L if case.get('start') is None else case['start']
+    p1 = n - 1 - K if case.get('end') is None else case['end']
+    kw = {}
+    if case.get('start') is not None:
+        kw['start'] = case['start']
+    if case.get('end') is not None:
+        kw['end'] = case['end']
+    got = attempt(A.solve, **kw, **opts)
+    want, exc = ([], [], []), None
+    for p in range(p0, p1 + 1):
+        r = attempt(B.solve_t, p, **opts)
+        if not r.ok:
+            exc = r.exc
+            break
+        want[0].append(p), want[1].append(p), want[2].append(bool(r.value))
+    empty = p0 > p1
+    res.nontrivial = empty or exc is not None
+    if empty:
+        res.tag('empty-range')
+    detail = f'subs={case["subs"]} n={n} LAGS={L} LEADS={K} solve({kw}, {SC.opts_text(opts)})'
+    if exc is not None:
+        if got.ok or type(got.exc) is not type(exc):
+            res.fail('linker-solve/exception-type', f'{detail}: solve() {got!r}, the loop of solve_t raised {type(exc).__name__}')
+    elif not got.ok:
+        res.fail('linker-solve/raised-' + got.exc_name + ('/empty-range' if empty else ''), f'{detail}: {got!r}; the loop of solve_t gives {want}')
+        return res
+    elif [list(x) for x in got.value] != [want[0], want[1], want[2]]:
+        res.fail('linker-solve/return-value' + ('/empty-range' if empty else ''), f'{detail}: returned {got.value!r}, the loop gives {want}')
+    for (ma, mb, what) in [(A, B, 'linker')] + [(subsA[k], subsB[k], f'submodel {k}') for k in subsA]:
+        d = snapshot.first_diff_key(snapshot.snapshot(ma), snapshot.snapshot(mb), ignore=('d._log', 'd._vals', 'd._glog'))
+        if d:
+            res.fail('linker-solve/state-differs-from-loop', f'{detail}: {what} differs at {d}')
+            break
+    return res
+
+
+def gen_ranges():
+    def gen():
+        for n in (2, 3, 4):
+            for l1, k1, l2, k2 in itertools.product(range(3), repeat=4):
+                if max(l1, l2) > n - 1 or max(k1, k2) > n - 1:
+                    continue         # (the default start / end would not even be a label of the span)
+                subs_ = [{'id': 'a', 'lags': l1, 'leads': k1, 'script': {'1:1': [['A', ['move', 1.0]]]}},
+                         {'id': 'b', 'lags': l2, 'leads': k2}]
+                for failures in ('raise', 'ignore'):
+                    yield {'subs': subs_, 'n': n, 'opts': {'max_iter': 2, 'tol': 0.25, 'failures': failures}}
+        for n in (3, 4):
+            for start in [None] + list(range(n)):
+                for end in [None] + list(range(n)):
+                    yield {'subs': [{'id': 'a', 'script': {'1:1': [['A', ['move', 1.0]]]}}, {'id': 'b', 'lags': 1}], 'n': n,
+                           'start': start, 'end': end, 'opts': {'max_iter': 3, 'tol': 0.25, 'failures': 'ignore'}}
     return gen
 
 
@@ -468,5 +552,6 @@ def phases(tier):
     quick = tier == 'quick'
     return [
         Phase('lattice-and-selections', check_case, gen=with_rep(gen_lattice(2 if quick else 3)), exhaustive=True),
+        Phase('linker-solve-ranges', check_ranges, gen=gen_ranges(), exhaustive=True),
         Phase('single-model-linker', check_single, strategy=strat_single, examples=1500 if quick else 100000),
     ]
